@@ -74,6 +74,128 @@ theorem services_never_rewrite (c : Cfg) (host : Host) (qt : QType)
   rw [h]
   exact toInternal_not_rewrite ..
 
+/-! ### The engine's match order is not specified: what can depend on it -/
+
+/-- A rewrite that ends `processDNSRewriteRules` early: a CNAME or a non-NOERROR code. -/
+def Rewrite.isTerminal : Rewrite → Bool
+  | .cname _ => true
+  | .rcode _ => true
+  | _ => false
+
+theorem terminal_some (rws : List Rewrite) (x : Rewrite) (h : terminal rws = some x) :
+    x.isTerminal = true ∧ x ∈ rws := by
+  induction rws with
+  | nil => simp [terminal] at h
+  | cons r rs ih =>
+    cases r with
+    | cname t => simp [terminal] at h; subst h; exact ⟨rfl, List.mem_cons_self ..⟩
+    | rcode rc => simp [terminal] at h; subst h; exact ⟨rfl, List.mem_cons_self ..⟩
+    | ip4 v => simp only [terminal] at h; exact ⟨(ih h).1, List.mem_cons_of_mem _ (ih h).2⟩
+    | ip6 v => simp only [terminal] at h; exact ⟨(ih h).1, List.mem_cons_of_mem _ (ih h).2⟩
+    | other t v => simp only [terminal] at h; exact ⟨(ih h).1, List.mem_cons_of_mem _ (ih h).2⟩
+
+theorem terminal_none (rws : List Rewrite) (h : terminal rws = Option.none) :
+    ∀ x ∈ rws, x.isTerminal = false := by
+  induction rws with
+  | nil => intro x hx; cases hx
+  | cons r rs ih =>
+    intro x hx
+    cases r with
+    | cname t => simp [terminal] at h
+    | rcode rc => simp [terminal] at h
+    | ip4 v =>
+      simp only [terminal] at h
+      rcases List.mem_cons.mp hx with rfl | hx
+      · rfl
+      · exact ih h x hx
+    | ip6 v =>
+      simp only [terminal] at h
+      rcases List.mem_cons.mp hx with rfl | hx
+      · rfl
+      · exact ih h x hx
+    | other t v =>
+      simp only [terminal] at h
+      rcases List.mem_cons.mp hx with rfl | hx
+      · rfl
+      · exact ih h x hx
+
+theorem terminal_cons_terminal (t : Rewrite) (rws : List Rewrite) (h : t.isTerminal = true) :
+    terminal (t :: rws) = some t := by
+  cases t <;> simp_all [terminal, Rewrite.isTerminal]
+
+/-- **rewrite_order_candidates.**  urlfilter does not specify the order in which one engine returns
+the matching rules of one list.  Whatever that order is (`rws'` any permutation of the source order
+`rws`), the outcome of the list's rewrites is one of a few: if some CNAME/rcode rewrite matches, it
+is the outcome the model computes with one of those candidates moved to the front; if none does,
+it is the NOERROR answer with the values of the queried type, in some order.  (The driver enumerates
+exactly these candidates and the harness checks membership.) -/
+theorem rewrite_order_candidates (host : Host) (qt : QType) (id : ListId) (rws rws' : List Rewrite)
+    (hp : rws'.Perm rws) :
+    (∃ t ∈ rws, t.isTerminal = true ∧
+        processRewrites host qt rws' id = processRewrites host qt (t :: rws) id) ∨
+    ((∀ x ∈ rws, x.isTerminal = false) ∧
+      ((rws = [] ∧ processRewrites host qt rws' id = .none) ∨
+       (rws ≠ [] ∧ ∃ vs, vs.Perm (rewriteVals rws qt) ∧ processRewrites host qt rws' id = .modResp id 0 vs))) := by
+  cases ht : terminal rws' with
+  | some t =>
+    left
+    obtain ⟨hterm, hmem⟩ := terminal_some rws' t ht
+    refine ⟨t, hp.mem_iff.mp hmem, hterm, ?_⟩
+    have hne : rws'.isEmpty = false := by
+      cases rws' with
+      | nil => cases hmem
+      | cons a as => rfl
+    unfold processRewrites
+    rw [ht, terminal_cons_terminal t rws hterm]
+    cases t <;> simp_all [Rewrite.isTerminal]
+  | none =>
+    right
+    have hall := terminal_none rws' ht
+    refine ⟨fun x hx => hall x (hp.mem_iff.mpr hx), ?_⟩
+    by_cases he : rws = []
+    · left
+      subst he
+      have : rws' = [] := List.Perm.eq_nil hp
+      subst this
+      exact ⟨rfl, processRewrites_nil ..⟩
+    · right
+      refine ⟨he, rewriteVals rws' qt, ?_, ?_⟩
+      · unfold rewriteVals
+        exact hp.filterMap _
+      · have hne : rws'.isEmpty = false := by
+          cases rws' with
+          | nil => exact absurd (List.Perm.nil_eq hp).symm he
+          | cons a as => rfl
+        unfold processRewrites
+        simp [hne, ht]
+
+/-- Two different early exits in one list: either may decide, nothing else can. -/
+example : processRewrites ["a", "test"] 1 [.ip4 "203.0.113.1", .rcode 5, .cname ["t", "test"]] (.shared 0) = .modResp (.shared 0) 5 [] ∧
+    processRewrites ["a", "test"] 1 [.cname ["t", "test"], .ip4 "203.0.113.1", .rcode 5] (.shared 0) = .modReq (.shared 0) ["t", "test"] := by
+  decide
+
+/-- **rewrite_order_irrelevant.**  With at most one distinct CNAME/rcode rewrite among the matches
+the order does not matter for the kind of outcome: every permutation gives the same early exit. -/
+theorem rewrite_order_irrelevant (host : Host) (qt : QType) (id : ListId) (rws rws' : List Rewrite) (t : Rewrite)
+    (hp : rws'.Perm rws) (ht : t ∈ rws) (hterm : t.isTerminal = true)
+    (huniq : ∀ x ∈ rws, x.isTerminal = true → x = t) :
+    processRewrites host qt rws' id = processRewrites host qt rws id := by
+  have key : ∀ l : List Rewrite, l.Perm rws → terminal l = some t := by
+    intro l hl
+    cases h : terminal l with
+    | none => exact absurd (terminal_none l h t (hl.mem_iff.mpr ht)) (by simp [hterm])
+    | some x =>
+      obtain ⟨hx, hm⟩ := terminal_some l x h
+      rw [huniq x (hl.mem_iff.mp hm) hx]
+  have hne : ∀ l : List Rewrite, l.Perm rws → l.isEmpty = false := by
+    intro l hl
+    cases l with
+    | nil => exact absurd (hl.mem_iff.mpr ht) (by simp)
+    | cons a as => rfl
+  unfold processRewrites
+  rw [key rws' hp, key rws (List.Perm.refl _), hne rws' hp, hne rws (List.Perm.refl _)]
+  cases t <;> simp_all [Rewrite.isTerminal]
+
 /-- The list a verdict is attributed to. -/
 def Verdict.list? : Verdict → Option ListId
   | .none => Option.none
@@ -652,6 +774,7 @@ def Ans.key : Ans → Option (Host × QType)
   | .a ip => some (ip, qtA)
   | .aaaa ip => some (ip, qtAAAA)
   | .cname t => some (t, qtCNAME)
+  | .https _ => Option.none
   | .other => Option.none
 
 /-- **response_never_rewrites.**  `$dnsrewrite` rules are not applied to responses: the response
@@ -663,7 +786,17 @@ theorem response_never_rewrites (c : Cfg) (answers : List Ans) :
   · rw [h]; rfl
   · obtain ⟨a, _, ha⟩ := List.mem_map.mp h
     rw [← ha]
-    cases a <;> first | exact toInternal_not_rewrite .. | rfl
+    cases a with
+    | https hints =>
+      simp only [answerVerdict]
+      rcases firstSome_mem (hints.map fun h => combined c.respSources h qtHTTPS) with h' | h'
+      · rw [h']; rfl
+      · obtain ⟨x, _, hx⟩ := List.mem_map.mp h'
+        rw [← hx]; exact toInternal_not_rewrite ..
+    | a ip => exact toInternal_not_rewrite ..
+    | aaaa ip => exact toInternal_not_rewrite ..
+    | cname t => exact toInternal_not_rewrite ..
+    | other => rfl
 
 /-- **response_first_answer_decides.**  The answer records are looked at in order; the first one
 for which the rules have a verdict decides. -/
@@ -680,14 +813,11 @@ theorem response_first_answer_decides (c : Cfg) (pre post : List Ans) (a : Ans)
 /-- **response_allow_beats_block.**  For one answer record (address or CNAME target) an allow rule
 of any source beats every block rule, and without an allow a matching block rule blocks — the same
 precedence as for the question, over all three kinds of sources. -/
-theorem response_allow_beats_block (c : Cfg) (a : Ans) (h : Host) (t : QType) (hk : a.key = some (h, t)) :
-    ((∃ p ∈ c.respSources, HasAllowRule p.2 h t) → ∃ l, answerVerdict c a = .allowed l) ∧
+theorem resp_precedence (c : Cfg) (h : Host) (t : QType) :
+    ((∃ p ∈ c.respSources, HasAllowRule p.2 h t) → ∃ l, combined c.respSources h t = .allowed l) ∧
     ((∀ p ∈ c.respSources, ¬ HasAllowRule p.2 h t) →
       (∃ p ∈ c.respSources, ∃ d ts, Rule.net d false ts ∈ p.2 ∧ domMatch d h = true ∧ ts.ok t = true) →
-      ∃ l, answerVerdict c a = .blocked l) := by
-  have hv : answerVerdict c a = combined c.respSources h t := by
-    cases a <;> simp [Ans.key] at hk <;> obtain ⟨rfl, rfl⟩ := hk <;> rfl
-  rw [hv]
+      ∃ l, combined c.respSources h t = .blocked l) := by
   constructor
   · rintro ⟨p, hp, d, ts, hr, hd, ht⟩
     obtain ⟨r, _, _, hc⟩ := combined_allow c.respSources h t
@@ -709,6 +839,54 @@ theorem response_allow_beats_block (c : Cfg) (a : Ans) (h : Host) (t : QType) (h
     obtain ⟨l, hl, _⟩ := combined_block c.respSources h t hna (Or.inl hne)
     exact ⟨l, hl⟩
 
+theorem response_allow_beats_block (c : Cfg) (a : Ans) (h : Host) (t : QType) (hk : a.key = some (h, t)) :
+    ((∃ p ∈ c.respSources, HasAllowRule p.2 h t) → ∃ l, answerVerdict c a = .allowed l) ∧
+    ((∀ p ∈ c.respSources, ¬ HasAllowRule p.2 h t) →
+      (∃ p ∈ c.respSources, ∃ d ts, Rule.net d false ts ∈ p.2 ∧ domMatch d h = true ∧ ts.ok t = true) →
+      ∃ l, answerVerdict c a = .blocked l) := by
+  have hv : answerVerdict c a = combined c.respSources h t := by
+    cases a <;> simp [Ans.key] at hk <;> obtain ⟨rfl, rfl⟩ := hk <;> rfl
+  rw [hv]
+  exact resp_precedence c h t
+
+/-- **response_https_hints.**  The `ipv4hint`/`ipv6hint` addresses of an HTTPS answer are filtered
+like address records, matched under the record type HTTPS: they are looked at in record order, the
+first hint the rules have a verdict for decides the record, and for that hint an allow rule of any
+source beats every block rule while a block rule without an allow blocks. -/
+theorem response_https_hints (c : Cfg) (pre post : List Host) (h : Host)
+    (hpre : ∀ x ∈ pre, combined c.respSources x qtHTTPS = .none)
+    (hh : combined c.respSources h qtHTTPS ≠ .none) :
+    answerVerdict c (.https (pre ++ h :: post)) = combined c.respSources h qtHTTPS ∧
+    ((∃ p ∈ c.respSources, HasAllowRule p.2 h qtHTTPS) →
+      ∃ l, answerVerdict c (.https (pre ++ h :: post)) = .allowed l) ∧
+    ((∀ p ∈ c.respSources, ¬ HasAllowRule p.2 h qtHTTPS) →
+      (∃ p ∈ c.respSources, ∃ d ts, Rule.net d false ts ∈ p.2 ∧ domMatch d h = true ∧ ts.ok qtHTTPS = true) →
+      ∃ l, answerVerdict c (.https (pre ++ h :: post)) = .blocked l) := by
+  have hv : answerVerdict c (.https (pre ++ h :: post)) = combined c.respSources h qtHTTPS := by
+    simp only [answerVerdict, List.map_append, List.map_cons]
+    apply firstSome_split _ _ _ _ hh
+    intro x hx
+    obtain ⟨y, hy, rfl⟩ := List.mem_map.mp hx
+    exact hpre y hy
+  rw [hv]
+  exact ⟨rfl, resp_precedence c h qtHTTPS⟩
+
+/-- An HTTPS answer without hints, or whose hints no rule mentions, has no verdict. -/
+theorem response_https_no_hint_no_verdict (c : Cfg) (hints : List Host)
+    (h : ∀ x ∈ hints, combined c.respSources x qtHTTPS = .none) : answerVerdict c (.https hints) = .none := by
+  simp only [answerVerdict]
+  apply firstSome_all_none
+  intro x hx
+  obtain ⟨y, hy, rfl⟩ := List.mem_map.mp hx
+  exact h y hy
+
+/-- An HTTPS answer whose second hint (an IPv6 address) a `$dnstype=HTTPS` rule blocks; the same
+address in an AAAA record is not blocked by that rule. -/
+example : let c : Cfg := { lists := [(4, [.net ["2001:db8::1"] false (.only qtHTTPS)])] }
+    answerVerdict c (.https [["192", "0", "2", "1"], ["2001:db8::1"]]) = .blocked (.shared 4) ∧
+    answerVerdict c (.aaaa ["2001:db8::1"]) = .none ∧
+    filterResponse c [.cname ["t", "test"], .https [["2001:db8::1"]]] = .blocked (.shared 4) := by decide
+
 /-- The first answer (a CNAME) has no verdict, the second (an address) is blocked by a shared list
 although a later address is allowed by the custom list. -/
 example : let c : Cfg := { custom := some [.net ["192", "0", "2", "2"] true .any],
@@ -722,7 +900,7 @@ example : let c : Cfg := { custom := some [.net ["192", "0", "2", "2"] true .any
 pause schedule, no blocked-service list, no adult filter and no safe search is part of the filter,
 whatever the individual switches say. -/
 theorem disabled_parental_contributes_nothing (st : Storage) (p : PCfg)
-    (h : p.parentalOn = false ∨ p.paused = true) :
+    (h : p.parentalOn = false ∨ p.paused st.now = true) :
     (assemble st p).svcs = [] ∧ (assemble st p).adult = Option.none ∧
       (assemble st p).genSS = Option.none ∧ (assemble st p).ytSS = Option.none := by
   rcases h with h | h <;> simp [assemble, onlyIf, h]
@@ -786,19 +964,176 @@ theorem all_off_filters_nothing (st : Storage) (p : PCfg) (host : Host) (qt : QT
   constructor
   · simp [filterRequest, ruleListVerdict, Cfg.rewriteSources, Cfg.svcSources, firstRewrite, combined, allNets,
       allHosts, toInternal, basicRule, basicFrom, reqFilterVerdicts, optV, firstSome]
-  · unfold filterResponse
+  · have hc : ∀ (h : Host) (t : QType), combined ({} : Cfg).respSources h t = .none := by
+      intro h t
+      simp [combined, Cfg.respSources, Cfg.svcSources, allNets, allHosts, toInternal, basicRule, basicFrom]
+    unfold filterResponse
     apply firstSome_all_none
     intro x hx
     obtain ⟨a, _, rfl⟩ := List.mem_map.mp hx
-    cases a <;> simp [answerVerdict, combined, Cfg.respSources, Cfg.svcSources, allNets, allHosts, toInternal,
-      basicRule, basicFrom]
+    cases a with
+    | https hints =>
+      simp only [answerVerdict]
+      apply firstSome_all_none
+      intro y hy
+      obtain ⟨z, _, rfl⟩ := List.mem_map.mp hy
+      exact hc z qtHTTPS
+    | a ip => exact hc ..
+    | aaaa ip => exact hc ..
+    | cname t => exact hc ..
+    | other => rfl
 
 example : let st : Storage := { lists := [(0, [.net ["a", "test"] false .any]), (1, [.rewrite ["a", "test"] (.rcode 3)])],
                                 svcs := [(0, [.net ["a", "test"] false .any])] }
-    let p : PCfg := { customOn := false, customRules := [.net ["a", "test"] false .any], parentalOn := true, paused := true,
+    let p : PCfg := { customOn := false, customRules := [.net ["a", "test"] false .any], parentalOn := true,
+                      pause := some { week := [none, none, none, none, some ⟨0, 1440⟩], zone := {} },
                       svcIds := [0], ruleListOn := true, listIds := [9, 1, 0] }
-    (assemble st p).lists.map (·.1) = [1, 0] ∧ (assemble st p).custom = none ∧ (assemble st p).svcs = [] ∧
+    p.paused st.now = true ∧ (assemble st p).lists.map (·.1) = [1, 0] ∧ (assemble st p).custom = none ∧ (assemble st p).svcs = [] ∧
     filterRequest (assemble st p) ["a", "test"] 1 = .modResp (.shared 1) 3 [] := by decide
+
+/-! ### The pause schedule against a calendar reading -/
+
+/-- What a wall clock in the zone shows at the instant `t`: weekday (0 = Sunday) and seconds since
+that day's 00:00 on the clock face. -/
+def wallClock (z : Zone) (t : Int) : Nat × Int :=
+  ((((t + z.off t) / 86400 + 4) % 7).toNat, (t + z.off t) % 86400)
+
+/-- **Independent calendar specification** of the pause schedule: the instant `t` lies in the pause
+when the wall clock of the profile's zone shows a weekday that has an interval and a time of day
+`start ≤ hh:mm:ss < end` (start inclusive, end exclusive, the zero interval never).  No `time.Date`,
+no elapsed-time arithmetic. -/
+def Sched.calendarContains (s : Sched) (t : Int) : Bool :=
+  match s.week.getD (wallClock s.zone t).1 Option.none with
+  | Option.none => false
+  | some iv =>
+    !(iv.start == 0 && iv.stop == 0) &&
+      decide ((iv.start : Int) * 60 ≤ (wallClock s.zone t).2) && decide ((wallClock s.zone t).2 < (iv.stop : Int) * 60)
+
+/-- `time.Date` found the midnight of today's civil day with the offset that is in force now. -/
+def MidnightOffsetCurrent (z : Zone) (t : Int) : Prop :=
+  goMidnight z ((t + z.off t) / 86400 * 86400) = (t + z.off t) / 86400 * 86400 - z.off t
+
+/-- **pause_matches_calendar.**  Whenever the zone's offset has not changed since local midnight (as
+`time.Date` sees it), `ConfigSchedule.Contains` — weekday, `time.Date`, minutes added as elapsed time —
+is exactly the calendar reading: for every schedule, zone and instant. -/
+theorem pause_matches_calendar (s : Sched) (t : Int) (h : MidnightOffsetCurrent s.zone t) :
+    s.contains t = s.calendarContains t := by
+  unfold MidnightOffsetCurrent at h
+  unfold Sched.contains Sched.calendarContains wallClock secPerDay
+  simp only
+  cases s.week.getD (((t + s.zone.off t) / 86400 + 4) % 7).toNat Option.none with
+  | none => rfl
+  | some iv =>
+    simp only
+    by_cases hz : (iv.start == 0 && iv.stop == 0) = true
+    · simp [hz]
+    · simp only [hz, Bool.false_eq_true, if_false, Bool.not_false, Bool.true_and]
+      rw [h]
+      generalize s.zone.off t = o
+      congr 1
+      · apply decide_eq_decide.mpr; omega
+      · apply decide_eq_decide.mpr; omega
+
+/-- A zone with one fixed offset (`time.FixedZone`, UTC): the hypothesis always holds. -/
+theorem fixed_zone_midnight (z : Zone) (t : Int) (h : z.periods = []) : MidnightOffsetCurrent z t := by
+  unfold MidnightOffsetCurrent goMidnight Zone.off Zone.find
+  simp [h]
+
+/-- **pause_fixed_zone.**  In every fixed-offset zone the pause is the calendar reading. -/
+theorem pause_fixed_zone (s : Sched) (t : Int) (h : s.zone.periods = []) :
+    s.contains t = s.calendarContains t :=
+  pause_matches_calendar s t (fixed_zone_midnight s.zone t h)
+
+/-- A zone with transitions, on a day without one: when one period holds the instant, the local
+midnight read as UTC, and the true instant of local midnight, the hypothesis holds. -/
+theorem same_period_midnight (z : Zone) (t : Int) (p : Period)
+    (ht : z.find t = some p) (hl : z.find ((t + p.off) / 86400 * 86400) = some p)
+    (hm : p.start ≤ (t + p.off) / 86400 * 86400 - p.off ∧ (t + p.off) / 86400 * 86400 - p.off < p.stop) :
+    MidnightOffsetCurrent z t := by
+  have ho : z.off t = p.off := by simp [Zone.off, ht]
+  unfold MidnightOffsetCurrent
+  rw [ho]
+  unfold goMidnight
+  rw [hl]
+  simp only
+  by_cases h0 : (p.off == 0) = true
+  · have : p.off = 0 := by simpa using h0
+    simp [this]
+  · have h1 : ¬ ((t + p.off) / 86400 * 86400 - p.off < p.start) := by omega
+    have h2 : ¬ ((t + p.off) / 86400 * 86400 - p.off ≥ p.stop) := by omega
+    simp [h0, h1, h2]
+
+theorem pause_same_period (s : Sched) (t : Int) (p : Period)
+    (ht : s.zone.find t = some p) (hl : s.zone.find ((t + p.off) / 86400 * 86400) = some p)
+    (hm : p.start ≤ (t + p.off) / 86400 * 86400 - p.off ∧ (t + p.off) / 86400 * 86400 - p.off < p.stop) :
+    s.contains t = s.calendarContains t :=
+  pause_matches_calendar s t (same_period_midnight s.zone t p ht hl hm)
+
+/-- Europe/Berlin around the spring transition of 2024: CET until 2024-03-31 01:00 UTC, CEST after. -/
+def berlin2024 : Zone :=
+  { periods := [⟨1698541200, 1711846800, 3600⟩, ⟨1711846800, 1729990800, 7200⟩], base := 3600 }
+
+/-- Pause on Sundays from 10:00 to 11:00. -/
+def sundayTen : Sched := { week := [some ⟨600, 660⟩], zone := berlin2024 }
+
+/-- An ordinary Sunday (2024-03-24, 10:30 CET = 09:30 UTC): hypotheses of `pause_same_period` hold,
+the pause is on, both readings agree; at 11:00 sharp the pause is over (exclusive end), at 10:00 sharp
+it has begun (inclusive start); Wednesday 2024-01-03 12:00 UTC is weekday 3. -/
+example : berlin2024.find 1711272600 = some ⟨1698541200, 1711846800, 3600⟩ ∧
+    sundayTen.contains 1711272600 = true ∧ sundayTen.calendarContains 1711272600 = true ∧
+    sundayTen.contains (1711270800 - 1) = false ∧ sundayTen.contains 1711270800 = true ∧
+    sundayTen.contains (1711274400 - 1) = true ∧ sundayTen.contains 1711274400 = false ∧
+    (wallClock {} 1704283200).1 = 3 := by decide
+
+/-- **pause_dst_day_differs.**  The hypothesis cannot be dropped: on the day of a time-zone
+transition the code's reading is off by the size of the transition.  Sunday 2024-03-31 in Berlin, a
+wall clock showing 10:30 (08:30 UTC): the calendar says the 10:00–11:00 pause is on, but `Contains`
+adds 600 elapsed minutes to a midnight that was still on winter time and gets 11:00–12:00. -/
+theorem pause_dst_day_differs :
+    sundayTen.calendarContains 1711873800 = true ∧ sundayTen.contains 1711873800 = false ∧
+    ¬ MidnightOffsetCurrent berlin2024 1711873800 := by
+  refine ⟨by decide, by decide, ?_⟩
+  unfold MidnightOffsetCurrent
+  decide
+
+/-- **paused_disables_parental.**  Inside the pause (calendar reading, offset unchanged since
+midnight) a profile's parental control contributes nothing — no blocked service, no adult filter, no
+safe search — whatever its individual switches say; rule lists, custom rules and safe browsing are
+untouched by the pause. -/
+theorem paused_disables_parental (st : Storage) (p : PCfg) (s : Sched) (hs : p.pause = some s)
+    (hmid : MidnightOffsetCurrent s.zone st.now) (hin : s.calendarContains st.now = true) :
+    (assemble st p).svcs = [] ∧ (assemble st p).adult = Option.none ∧
+      (assemble st p).genSS = Option.none ∧ (assemble st p).ytSS = Option.none ∧
+      (assemble st p).lists = (assemble st { p with pause := Option.none }).lists ∧
+      (assemble st p).custom = (assemble st { p with pause := Option.none }).custom ∧
+      (assemble st p).sb = (assemble st { p with pause := Option.none }).sb ∧
+      (assemble st p).newReg = (assemble st { p with pause := Option.none }).newReg := by
+  have hp : p.paused st.now = true := by
+    simp [PCfg.paused, hs, pause_matches_calendar s st.now hmid, hin]
+  obtain ⟨h1, h2, h3, h4⟩ := disabled_parental_contributes_nothing st p (Or.inr hp)
+  exact ⟨h1, h2, h3, h4, rfl, rfl, rfl, rfl⟩
+
+/-- **outside_pause_schedule_is_ignored.**  Outside the pause (calendar reading) the schedule changes
+nothing: the assembled filter is the one of the same configuration without a schedule. -/
+theorem outside_pause_schedule_is_ignored (st : Storage) (p : PCfg) (s : Sched) (hs : p.pause = some s)
+    (hmid : MidnightOffsetCurrent s.zone st.now) (hout : s.calendarContains st.now = false) :
+    assemble st p = assemble st { p with pause := Option.none } := by
+  have hp : p.paused st.now = false := by
+    simp [PCfg.paused, hs, pause_matches_calendar s st.now hmid, hout]
+  have hq : ({ p with pause := Option.none } : PCfg).paused st.now = false := rfl
+  unfold assemble
+  simp only [hp, hq]
+
+/-- A paused profile (Wednesdays all day, UTC, the clock at Wednesday noon): the adult filter that would
+rewrite the name is not applied, the shared list still blocks. -/
+example : let st : Storage := { lists := [(0, [.net ["b", "test"] false .any])],
+                                adult := { hosts := [["a", "test"]], repl := ["ad", "test"] }, now := 1704283200 }
+    let s : Sched := { week := [none, none, none, some ⟨0, 1440⟩], zone := {} }
+    let p : PCfg := { parentalOn := true, adultOn := true, pause := some s, ruleListOn := true, listIds := [0] }
+    s.calendarContains st.now = true ∧
+    filterRequest (assemble st p) ["a", "test"] 1 = .none ∧
+    filterRequest (assemble st { p with pause := none }) ["a", "test"] 1 = .modReq .adult ["ad", "test"] ∧
+    filterRequest (assemble st p) ["b", "test"] 1 = .blocked (.shared 0) := by decide
 
 /-! ### Whose blocking mode and TTL: the requester's own -/
 
@@ -806,13 +1141,33 @@ example : let st : Storage := { lists := [(0, [.net ["a", "test"] false .any]), 
 with that profile's blocking mode and TTL whatever the server-wide settings are: changing the
 server's mode and TTL changes nothing in any answer.  An anonymous requester gets the server's. -/
 theorem requesters_own_mode (srv : Server) (p : Profile) (up : Host → QType → Msg) (host : Host) (qt : QType)
-    (m' : Mode) (t' : Nat) (hp : 0 ≤ p.ttl) :
-    (envOf srv (some p) up).mode = p.mode ∧ (envOf srv (some p) up).ttl = p.ttl.toNat ∧
+    (m : Mode) (m' : Mode) (t' : Nat) (hm : p.mode = some m) (hp : 0 ≤ p.ttl) :
+    (envOf srv (some p) up).mode = m ∧ (envOf srv (some p) up).ttl = p.ttl.toNat ∧
     serveReq { srv with mode := m', ttl := t' } (some p) up host qt = serveReq srv (some p) up host qt := by
   have hn : ¬ p.ttl < 0 := by omega
-  refine ⟨by simp [envOf, ctorOf, hn], by simp [envOf, ctorOf, hn], ?_⟩
+  refine ⟨by simp [envOf, ctorOf, hn, hm], by simp [envOf, ctorOf, hn, hm], ?_⟩
   unfold serveReq envOf ctorOf
-  simp [hn]
+  simp [hn, hm]
+
+/-- **no_constructor_gets_server_mode.**  The two ways a profile can fail to yield a message
+constructor — no blocking mode at all, or a negative TTL — leave the server's constructor in place:
+such a requester is answered exactly like an anonymous one as far as mode and TTL go (its own filter
+configuration still applies). -/
+theorem no_constructor_gets_server_mode (srv : Server) (p : Profile) (up : Host → QType → Msg)
+    (h : p.mode = Option.none ∨ p.ttl < 0) :
+    (envOf srv (some p) up).mode = srv.mode ∧ (envOf srv (some p) up).ttl = srv.ttl ∧
+    (envOf srv (some p) up).prof = assemble srv.st p.conf := by
+  rcases h with h | h
+  · simp [envOf, ctorOf, h]
+  · cases hm : p.mode <;> simp [envOf, ctorOf, h, hm]
+
+/-- A profile without a blocking mode on a REFUSED server: blocked by its own rule list, answered in
+the server's shape. -/
+example : let srv : Server := { st := { lists := [(0, [.net ["a", "test"] false .any])] }, mode := .refused, ttl := 10, grp := {} }
+    let p : Profile := { conf := { ruleListOn := true, listIds := [0] }, mode := none, ttl := 77,
+                         filteringOn := true, devFilteringOn := true }
+    serveReq srv (some p) (fun _ _ => { rcode := 0, ans := [], soa := none }) ["a", "test"] 1 =
+      { rcode := 5, ans := [], soa := some 10 } := by decide
 
 theorem anonymous_gets_server_mode (srv : Server) (up : Host → QType → Msg) :
     (envOf srv Option.none up).mode = srv.mode ∧ (envOf srv Option.none up).ttl = srv.ttl ∧
@@ -823,7 +1178,7 @@ theorem anonymous_gets_server_mode (srv : Server) (up : Host → QType → Msg) 
 profile's TTL; the anonymous requester of the same server gets `0.0.0.0` with the server's TTL. -/
 example : let srv : Server := { st := { lists := [(0, [.net ["a", "test"] false .any])] }, mode := .nullIP, ttl := 10,
                                 grp := { ruleListOn := true, listIds := [0] } }
-    let p : Profile := { conf := { ruleListOn := true, listIds := [0] }, mode := .nxdomain, ttl := 77,
+    let p : Profile := { conf := { ruleListOn := true, listIds := [0] }, mode := some .nxdomain, ttl := 77,
                          filteringOn := true, devFilteringOn := true }
     let up : Host → QType → Msg := fun _ _ => { rcode := 0, ans := [], soa := none }
     serveReq srv (some p) up ["a", "test"] 1 = { rcode := 3, ans := [], soa := some 77 } ∧
@@ -853,8 +1208,7 @@ theorem serve_blocked (e : Env) (host : Host) (qt : QType) (h : Blocked e host q
 every synthesised record and the SOA carrying the profile's TTL: null IP (`0.0.0.0` / `::`, NODATA
 with SOA for other types), custom IP (the configured addresses of the family, NODATA when the family
 has none or for other types), NXDOMAIN with SOA, REFUSED with SOA. -/
-theorem blocked_shape (e : Env) (host : Host) (qt : QType) (h : Blocked e host qt)
-    (hwf : e.mode.WF = true) :
+theorem blocked_shape (e : Env) (host : Host) (qt : QType) (h : Blocked e host qt) :
     serve e host qt =
       match e.mode with
       | .nullIP =>
@@ -863,9 +1217,13 @@ theorem blocked_shape (e : Env) (host : Host) (qt : QType) (h : Blocked e host q
         else { rcode := 0, ans := [], soa := some e.ttl }
       | .customIP v4 v6 =>
         if qt = qtA ∧ v4 ≠ [] then
-          { rcode := 0, ans := v4.map (fun p => synthRR host qtA e.ttl p.2), soa := none }
+          if v4.all (fun p => p.1) = true then
+            { rcode := 0, ans := v4.map (fun p => synthRR host qtA e.ttl p.2), soa := none }
+          else { rcode := 2, ans := [], soa := none }
         else if qt = qtAAAA ∧ v6 ≠ [] then
-          { rcode := 0, ans := v6.map (fun p => synthRR host qtAAAA e.ttl p.2), soa := none }
+          if v6.all (fun p => !p.1) = true then
+            { rcode := 0, ans := v6.map (fun p => synthRR host qtAAAA e.ttl p.2), soa := none }
+          else { rcode := 2, ans := [], soa := none }
         else { rcode := 0, ans := [], soa := some e.ttl }
       | .nxdomain => { rcode := 3, ans := [], soa := some e.ttl }
       | .refused => { rcode := 5, ans := [], soa := some e.ttl } := by
@@ -879,21 +1237,23 @@ theorem blocked_shape (e : Env) (host : Host) (qt : QType) (h : Blocked e host q
       · subst h2; simp [qtA, qtAAAA]
       · simp [h1, h2]
   | customIP v4 v6 =>
-    rw [hm] at hwf
-    simp only [Mode.WF, Bool.and_eq_true] at hwf
-    simp only [blockedResp, nodata]
+    simp only [blockedResp, nodata, blockedFallback]
     by_cases h1 : qt = qtA
     · subst h1
       by_cases hv : v4 = []
       · subst hv; simp [qtA, qtAAAA]
       · have : v4.isEmpty = false := by cases v4 <;> simp_all
-        simp [this, hv, hwf.1]
+        by_cases hw : v4.all (fun p => p.1) = true
+        · simp [this, hv, hw]
+        · simp [this, hv, hw]
     · by_cases h2 : qt = qtAAAA
       · subst h2
         by_cases hv : v6 = []
         · subst hv; simp [qtA, qtAAAA]
         · have : v6.isEmpty = false := by cases v6 <;> simp_all
-          simp [this, hv, hwf.2, qtA, qtAAAA]
+          by_cases hw : v6.all (fun p => !p.1) = true
+          · simp [this, hv, hw, qtA, qtAAAA]
+          · simp [this, hv, hw, qtA, qtAAAA]
       · simp [h1, h2]
   | nxdomain => simp [blockedResp]
   | refused => simp [blockedResp]
@@ -1019,6 +1379,11 @@ theorem blocked_leaks_upstream_counterexample :
 
 #print axioms rewrite_wins
 #print axioms rewrite_wins_rules
+#print axioms terminal_some
+#print axioms terminal_none
+#print axioms terminal_cons_terminal
+#print axioms rewrite_order_candidates
+#print axioms rewrite_order_irrelevant
 #print axioms allow_beats_block_rules
 #print axioms block_iff_rules
 #print axioms deciding_rule_first_max
@@ -1035,6 +1400,18 @@ theorem blocked_leaks_upstream_counterexample :
 #print axioms shared_lists_in_configured_order
 #print axioms all_off_filters_nothing
 #print axioms requesters_own_mode
+#print axioms no_constructor_gets_server_mode
+#print axioms resp_precedence
+#print axioms response_https_hints
+#print axioms response_https_no_hint_no_verdict
+#print axioms pause_matches_calendar
+#print axioms fixed_zone_midnight
+#print axioms pause_fixed_zone
+#print axioms same_period_midnight
+#print axioms pause_same_period
+#print axioms pause_dst_day_differs
+#print axioms paused_disables_parental
+#print axioms outside_pause_schedule_is_ignored
 #print axioms anonymous_gets_server_mode
 #print axioms safety_block_https_uses_mode
 #print axioms safety_block_no_upstream
